@@ -221,28 +221,26 @@ ObjEnd == /\ pc = "strs" /\ slot > Len(Slots(D[i]))
           /\ UNCHANGED <<ds, variant, fresh, nextra, mru, ereg, ring, cur, dreg, dobj, box, hist>>
 
 (* The first BulkN objects of the data set "bulk" (node j at 0/0 with the single new tag j=v, all strings inline) in ONE
-   action: the BulkN-fold composition of ObjStart ; Str(inline) ; ObjEnd, written with the same AIns / IIns.  It exists so
-   that a table of the real size (N = 15000) can be filled without 45000 states of 15000 rows each; MCO5mFill.cfg (FillOnly
-   = FALSE, small N) contains both ways and checks that they meet in the same state (FillAgree). *)
+   action: the BulkN-fold composition of ObjStart ; Str(inline) ; ObjEnd in closed form (starting from an empty table):
+   the list holds the last min(N, BulkN) strings, newest first; row x of the ring holds the last string j with
+   (j - 1) % N = x; current_entry = BulkN % N.  It exists so that a table of the real size (N = 15000) can be filled
+   without 45000 states of 15000 rows each.  MCO5mFill*.cfg (FillOnly = FALSE, small N, with and without wrap-around)
+   contain both ways and check that the single steps arrive at exactly this state (FillAgree). *)
 FillBody(j) == [k |-> "t", a |-> ToString(j), b |-> "v"]
-RECURSIVE FillA(_, _)
-FillA(m, j) == IF j > BulkN THEN m ELSE FillA(AIns(m, FillBody(j)), j + 1)
-RECURSIVE FillI(_, _)
-FillI(rc, j) == IF j > BulkN THEN rc ELSE FillI(IIns(rc.ring, rc.cur, FillBody(j)), j + 1)
+FillMru == [k \in 1..Min(N, BulkN) |-> FillBody(BulkN - k + 1)]
+FillRing(r) == [x \in 0..N - 1 |-> IF x + 1 <= BulkN THEN FillBody(x + 1 + ((BulkN - 1 - x) \div N) * N) ELSE r[x]]
 FillReg == [ZeroReg EXCEPT !.id = BulkN]
-FillerRun == /\ ds = "bulk" /\ pc = "obj" /\ i = 1 /\ nextra = 0
-             /\ mru' = FillA(mru, 1)
-             /\ LET rc == FillI([ring |-> ring, cur |-> cur], 1) IN ring' = rc.ring /\ cur' = rc.cur
+FillDec == [j \in 1..BulkN |-> NodeB(j, 0, 0, <<<<ToString(j), "v">>>>)]
+FillerRun == /\ ds = "bulk" /\ pc = "obj" /\ i = 1 /\ nextra = 0 /\ mru = <<>> /\ cur = 0
+             /\ mru' = FillMru /\ ring' = FillRing(ring) /\ cur' = BulkN % N
              /\ ereg' = FillReg /\ dreg' = FillReg
-             /\ decoded' = [j \in 1..BulkN |-> NodeB(j, 0, 0, <<<<ToString(j), "v">>>>)]
+             /\ decoded' = FillDec
              /\ i' = BulkN + 1 /\ fresh' = FALSE
              /\ Rec([a |-> "fill", n |-> BulkN])
              /\ UNCHANGED <<ds, variant, pc, slot, nextra, dobj, box>>
 FillAgree == (ds = "bulk" /\ pc = "obj" /\ i = BulkN + 1 /\ nextra = 0) =>
-                LET rc == FillI([ring |-> [x \in 0..N - 1 |-> NoStr], cur |-> 0], 1) IN
-                /\ mru = FillA(<<>>, 1) /\ ring = rc.ring /\ cur = rc.cur
-                /\ ereg = FillReg /\ dreg = FillReg
-                /\ decoded = [j \in 1..BulkN |-> NodeB(j, 0, 0, <<<<ToString(j), "v">>>>)]
+                /\ mru = FillMru /\ ring = FillRing([x \in 0..N - 1 |-> NoStr]) /\ cur = BulkN % N
+                /\ ereg = FillReg /\ dreg = FillReg /\ decoded = FillDec
 
 Finish == /\ pc = "obj" /\ i > Len(D)
           /\ pc' = "done"
